@@ -33,7 +33,7 @@ ASSUMPTIONS = ['hash seeds are sampled (4 quick / 8 thorough), not enumerated']
 
 def budget(tier):
     if tier == 'thorough':
-        return dict(examples=500, shards=16, procs=16)
+        return dict(examples=1500, shards=16, procs=16)
     return dict(examples=200, shards=4, procs=4)
 
 
@@ -191,7 +191,7 @@ def extra(tier, seed, col):
     me = sys.modules[__name__]
     # --- processes / hash seeds
     sink = _Sink()
-    hypothesis_run(me, tier, seed * 1000 + 991, 150 if tier == 'quick' else 600, sink)
+    hypothesis_run(me, tier, seed * 1000 + 991, 150 if tier == 'quick' else 1500, sink)
     cases = sink.cases
     seeds = ['0', '1', '2', 'random'] if tier == 'quick' else ['0', '1', '2', '3', '17', '4242', 'random', 'random']
     outs = hash_seed_run([dict(input=c['input'], aa=c['last_all_atom'], legacy=c['legacy']) for c in cases],
@@ -208,7 +208,7 @@ def extra(tier, seed, col):
                                    dict(c, hash_seeds=[keys[0], k]), 'hash-seed')
                 break
     # --- histories
-    nh, steps = (40, 20) if tier == 'quick' else (400, 25)
+    nh, steps = (40, 20) if tier == 'quick' else (1000, 30)
     hist = run_machine(seed, nh, steps, col)
     return dict(hash_seed_inputs=len(cases), hash_seeds=keys, hash_seed_comparisons=compared, histories=hist)
 
